@@ -187,22 +187,44 @@ func (r *Run) noPanic(resp *Resp, what string) {
 }
 
 func panicSig(resp *Resp) string {
-	// first gofakes3 frame of the stack names the site
+	// the first gofakes3 frame of the stack names the site
 	for _, line := range strings.Split(resp.Stack, "\n") {
 		line = strings.TrimSpace(line)
-		if strings.Contains(line, "/repo/") && strings.Contains(line, ".go:") {
-			i := strings.Index(line, "/repo/")
-			s := line[i+6:]
-			if j := strings.Index(s, " "); j > 0 {
-				s = s[:j]
-			}
-			if k := strings.LastIndex(s, ":"); k > 0 {
-				s = s[:k] // drop the line number: instrumented lines differ from source lines
-			}
-			return fmt.Sprintf("%v at %s", resp.Panic, s)
+		i := strings.Index(line, "gofakes3")
+		if i < 0 || !strings.Contains(line, ".go:") || strings.Contains(line, "/verif/") {
+			continue
 		}
+		s := line[i:]
+		if j := strings.Index(s, "/"); j >= 0 {
+			s = s[j+1:]
+		}
+		if j := strings.Index(s, " "); j > 0 {
+			s = s[:j]
+		}
+		if k := strings.LastIndex(s, ":"); k > 0 {
+			s = s[:k] // drop the line number: instrumented lines differ from source lines
+		}
+		return fmt.Sprintf("%s at %s", normNum(fmt.Sprint(resp.Panic)), s)
 	}
-	return fmt.Sprintf("%v", resp.Panic)
+	return normNum(fmt.Sprint(resp.Panic))
+}
+
+// normNum replaces digit runs by N so that one defect has one signature.
+func normNum(s string) string {
+	var b strings.Builder
+	in := false
+	for _, c := range s {
+		if c >= '0' && c <= '9' {
+			if !in {
+				b.WriteByte('N')
+			}
+			in = true
+			continue
+		}
+		in = false
+		b.WriteRune(c)
+	}
+	return b.String()
 }
 
 // bucket returns the model bucket an object-level request resolves to,
